@@ -197,32 +197,40 @@ pub fn run_case(case: &Case, ev: &Evaluator, ctx: &Ctx, rep: &mut Report) -> Ver
     // Stop instants by node count
     let pending: Arc<Mutex<Vec<u64>>> = Arc::new(Mutex::new(case.stops.iter().copied().filter(|k| *k > 0).collect()));
     let stops_sent = Arc::new(std::sync::atomic::AtomicU64::new(0));
+    // Every Stop goes out from a thread of its own, through a clone of whatever sender type the engine hands out:
+    // the harness neither names that type nor blocks if the channel is bounded.
+    let send_stop: Arc<dyn Fn() + Send + Sync> = {
+        let txm = Mutex::new(tx.clone());
+        Arc::new(move || {
+            let t = txm.lock().unwrap().clone();
+            std::thread::spawn(move || {
+                let _ = t.send(ControlEvent::Stop);
+            });
+        })
+    };
     if case.stops.contains(&0) {
-        let _ = tx.send(ControlEvent::Stop);
+        send_stop();
         stops_sent.fetch_add(1, SeqCst);
     }
     {
         // the trigger re-arms itself for the next instant
         let pend = pending.clone();
-        let txc = Mutex::new(tx.clone());
         let sent = stops_sent.clone();
         let first = pend.lock().unwrap().first().copied();
         if let Some(k) = first {
-            fn arm(k: u64, pend: Arc<Mutex<Vec<u64>>>, txc: Arc<Mutex<std::sync::mpsc::Sender<ControlEvent>>>, sent: Arc<std::sync::atomic::AtomicU64>) {
-                srch::set_trigger(
-                    k,
-                    Box::new(move || {
-                        let _ = txc.lock().unwrap().send(ControlEvent::Stop);
-                        sent.fetch_add(1, SeqCst);
-                        let mut p = pend.lock().unwrap();
-                        if !p.is_empty() {
-                            p.remove(0);
-                        }
-                        // further Stops of this case are sent by the watcher loop (same node instants)
-                    }),
-                );
-            }
-            arm(k, pend.clone(), Arc::new(txc), sent.clone());
+            let send = send_stop.clone();
+            srch::set_trigger(
+                k,
+                Box::new(move || {
+                    send();
+                    sent.fetch_add(1, SeqCst);
+                    let mut p = pend.lock().unwrap();
+                    if !p.is_empty() {
+                        p.remove(0);
+                    }
+                    // further Stops of this case are sent by the watcher loop (same node instants)
+                }),
+            );
         }
     }
     let t0 = Instant::now();
@@ -242,7 +250,7 @@ pub fn run_case(case: &Case, ev: &Evaluator, ctx: &Ctx, rep: &mut Report) -> Ver
             let n = srch::NODES.load(Relaxed);
             while srch::TRIGGER_FIRED.load(Relaxed) && !p.is_empty() && p[0] <= n {
                 p.remove(0);
-                let _ = tx.send(ControlEvent::Stop);
+                send_stop();
                 stops_sent.fetch_add(1, SeqCst);
             }
         }
@@ -346,7 +354,7 @@ pub fn run_case(case: &Case, ev: &Evaluator, ctx: &Ctx, rep: &mut Report) -> Ver
     }
     if case.stop_after {
         // Stop after completion must be harmless (the receiver side is gone)
-        let _ = tx.send(ControlEvent::Stop);
+        send_stop();
         rep.count("stop_after_completion", 1);
     }
     let after = srch::MAX_THREAD_NODES_AFTER_CANCEL.load(SeqCst);
@@ -644,26 +652,6 @@ pub fn run(ctx: &Ctx, rep: &mut Report) {
         let kind = kinds[k % kinds.len()];
         k += 1;
         n -= 1;
-        if ctx.mode != "miri" && (k == 4 || (ctx.thorough() && k % 40 == 4)) {
-            // a tiny tree searched to a great depth (bare kings; even one locked pawn pair makes depth 60 take half an
-            // hour): iterations far beyond any fixed ply bound an implementation might assume, ended by the depth
-            // limit alone. One or two workers and a roomy memory (with a table of a few buckets, or many workers,
-            // the same search takes minutes).
-            let p = loop {
-                let mut b = [0i8; 64];
-                let (wk, bk) = (rng.gen_range(0..64usize), rng.gen_range(0..64usize));
-                b[wk] = 6;
-                b[bk] = -6;
-                let q = Pos { b, wtm: rng.gen_bool(0.5), castle: 0, ep: None, half: 0, full: 1 };
-                if wk != bk && q.is_legal_position() && !q.legal_moves().is_empty() {
-                    break q;
-                }
-            };
-            let s = crate::scenario::Step::new(&p.fen(), rng.gen_range(65..=72), if rng.gen_bool(0.3) { 2 } else { 1 }, rng.gen());
-            let sc = crate::scenario::Scenario { tables: 8, buckets: 1024, hasher_seed: rng.gen(), steps: vec![s] };
-            rep.count("cases_deep", 1);
-            sync_scenario(&sc, &ev, ctx, rep);
-        }
         if kind == "sync" {
             // explicit worker counts through the synchronous entry point, Stop by node count
             let p = c03::random_root(&mut rng, &corpus);
@@ -703,6 +691,30 @@ pub fn run(ctx: &Ctx, rep: &mut Report) {
                 std::process::exit(if rep.violation_count > 0 { 1 } else { 2 });
             }
             _ => {}
+        }
+    }
+    // After everything else: a tiny tree searched to a great depth (bare kings; even one locked pawn pair makes depth
+    // 60 take half an hour): iterations far beyond any fixed ply bound an implementation might assume, ended by the
+    // depth limit alone. One or two workers and a roomy memory (with a table of a few buckets, or many workers, the same
+    // search takes minutes); a Stop at 60 M nodes (the unchanged engine needs about 7 M) keeps a degenerate search from
+    // running into the watchdog.
+    if ctx.mode != "miri" {
+        for _ in 0..(if ctx.thorough() { 6 } else { 1 }) {
+            let p = loop {
+                let mut b = [0i8; 64];
+                let (wk, bk) = (rng.gen_range(0..64usize), rng.gen_range(0..64usize));
+                b[wk] = 6;
+                b[bk] = -6;
+                let q = Pos { b, wtm: rng.gen_bool(0.5), castle: 0, ep: None, half: 0, full: 1 };
+                if wk != bk && q.is_legal_position() && !q.legal_moves().is_empty() {
+                    break q;
+                }
+            };
+            let mut s = crate::scenario::Step::new(&p.fen(), rng.gen_range(65..=72), if rng.gen_bool(0.3) { 2 } else { 1 }, rng.gen());
+            s.cancel_at = Some(60_000_000);
+            let sc = crate::scenario::Scenario { tables: 8, buckets: 1024, hasher_seed: rng.gen(), steps: vec![s] };
+            rep.count("cases_deep", 1);
+            sync_scenario(&sc, &ev, ctx, rep);
         }
     }
 }
